@@ -3,6 +3,7 @@ package hs
 import (
 	"crypto/ecdh"
 	"fmt"
+	"reflect"
 
 	tls "github.com/refraction-networking/utls"
 	"verif/harness/vh"
@@ -224,4 +225,27 @@ func Flight12FromSeen(r *Result, alpn string, skxCurve uint16) string {
 	sh := fmt.Sprintf("(mkHello %d 0 %d %s %d 0 0 0 false None %s)", r.ServerHelloVers, tailOf(r.ServerHelloRandom), vh.Bytes(r.ServerHelloSID),
 		r.ServerHelloSuite, vh.Str(alpn))
 	return fmt.Sprintf("(mkFlight None %s [] None %s true)", sh, skx)
+}
+
+// TreeFixed: the utls tree under test carries the C18 key-share repair (KeySharePrivateKeys.ExtraEcdhe + ecdheKeyFor);
+// read by reflection so the harness builds on either tree and hands the model the matching key-selection rule
+// (Model/Complete.v client_run10's [fixed]).
+func TreeFixed() bool {
+	_, ok := reflect.TypeOf(tls.KeySharePrivateKeys{}).FieldByName("ExtraEcdhe")
+	return ok
+}
+
+// ShapeTerm: curves of the private keys ApplyPreset retained (KeyShare.mkShape ecdhe extra mlkem mlkem_ecdhe).
+func ShapeTerm(ks *tls.KeySharePrivateKeys) string {
+	if ks == nil {
+		return "(KeyShare.mkShape 0 [] false 0)"
+	}
+	var extra []uint16
+	if f := reflect.ValueOf(ks).Elem().FieldByName("ExtraEcdhe"); f.IsValid() {
+		keys, _ := f.Interface().([]*ecdh.PrivateKey)
+		for _, k := range keys {
+			extra = append(extra, CurveOfKey(k))
+		}
+	}
+	return fmt.Sprintf("(KeyShare.mkShape %d %s %s %d)", CurveOfKey(ks.Ecdhe), vh.U16s(extra), vh.Bool(ks.Mlkem != nil), CurveOfKey(ks.MlkemEcdhe))
 }
